@@ -415,7 +415,11 @@ class Renderer(object):  # pylint: disable=too-many-instance-attributes
             if ext == 99:
                 # a travel move that repeats the unchanged E value (some slicers do): neither extrusion nor retraction
                 if words and pr.eabs:
-                    words += self.e_word(pr.e)
+                    w_ = self.e_word(pr.e)
+                    # ... if the number of decimals written can express it: a word that differs from the current E by more than
+                    # unit-conversion round-off would be a (sub-nanometre) extrusion while retracted, which no program of the domain does
+                    if abs(float(w_[2:]) * pr.u - pr.e) <= 4e-16 * abs(pr.e):
+                        words += w_
             elif ext > 0 and not self.retracted and self.e_ok():
                 words += self.e_word(pr.e + ext * 0.127)
             elif ext < 0 and self.p["retract"] == "wild" and self.e_ok():
